@@ -104,6 +104,7 @@ def _detail(f):
 
 
 def keyfn(variant, e, f):
+    variant = variant.split("/")[0]          # the scope label is not part of a finding's identity
     d = _detail(f)
     op = e["op"] if e else f.op
     return "%s.%s [%s] %s%s" % (variant, op, argclass(e) if e else "-", f.kind, ("/" + d) if d else "")
@@ -510,18 +511,26 @@ def _clip(ev):
 
 def run(ctx):
     exe = harness(ctx)
-    cfg = "MBuffObj_quick.cfg" if ctx.tier == "quick" else "MBuffObj_thorough.cfg"
-    g, res = objcheck.tlc_graph(ctx, "MC_MBuffObj.tla", cfg, workers=3, timeout=2400)
-    # vacuity: every call of the interface must occur among the generated transitions
+    # quick: one scope.  thorough: two scopes - 4 byte values / buffers <= 4 / B <= 2, and 3 byte values / buffers <= 5 / B <= 1
+    # with wider index and count ranges (the graphs are processed one after the other to bound memory)
+    scopes = [("table", "MBuffObj_quick.cfg")] if ctx.tier == "quick" else [("table", "MBuffObj_thorough.cfg"),
+                                                                             ("table/len5", "MBuffObj_thorough2.cfg")]
+    walks = (300, 40) if ctx.tier == "quick" else (3000, 60)
     per_op = {}
-    for _, _, e in g.edges:
-        per_op[e["op"]] = per_op.get(e["op"], 0) + 1
+    for variant, cfg in scopes:
+        g, res = objcheck.tlc_graph(ctx, "MC_MBuffObj.tla", cfg, workers=3, timeout=2400)
+        seen = {}
+        for _, _, e in g.edges:
+            seen[e["op"]] = seen.get(e["op"], 0) + 1
+        # vacuity: every call of the interface must occur among the generated transitions of every scope
+        missing = [o for o in ALL_OPS if not seen.get(o)]
+        if missing:
+            raise Broken("vacuity: no transition generated for %s in %s" % (missing, cfg))
+        for k, v in seen.items():
+            per_op[k] = per_op.get(k, 0) + v
+        objcheck.replay_cover(ctx, g, [tok(INIT)], exe, variant, ["table"], keyfn, walks=walks, jobs=4)
+        del g
     ctx.cov["edges_per_op"] = dict(sorted(per_op.items()))
-    missing = [o for o in ALL_OPS if not per_op.get(o)]
-    if missing:
-        raise Broken("vacuity: no transition generated for %s" % missing)
-    walks = (300, 40) if ctx.tier == "quick" else (4000, 60)
-    objcheck.replay_cover(ctx, g, [tok(INIT)], exe, "table", ["table"], keyfn, walks=walks, jobs=4)
     trace_validation(ctx, exe)
     ctx.cov["exhaustive"] = True
     ctx.cov["rule"] = ("every transition TLC generates for MBuffObj in the bounded scope is executed once (through the class table) as the "
